@@ -26,7 +26,7 @@ DESIGN_REF = "DESIGN.md §5 C13"
 MUT_1 = ["ADD", "PREPEND", "DRAIN", "REMOVE", "PULLUP", "EXPAND", "RESERVE_COMMIT", "RESERVE_COMMIT2", "REF", "ADD_IOVEC"]
 MUT_2 = C12.FINALS_2
 PRE_Q = [[], [(A, "ADD", 3)], [(A, "ADD", 16)], [(A, "REF", 3)], [(A, "ADD", 15), (A, "DRAIN", 4)]]
-PRE_T = PRE_Q + [[(A, "ADD", 16), (A, "ADD", 3)], [(A, "PREPEND", 3)], [(A, "ADD", 3), (A, "REF", 2)], [(A, "ADD", 16), (A, "EXPAND", 8)], [(A, "MCAST", 3)]]
+PRE_T = PRE_Q + [[(A, "ADD", 16), (A, "ADD", 3)], [(A, "PREPEND", 3)], [(A, "ADD", 3), (A, "REF", 2)], [(A, "MCAST", 3)]]
 TOGGLE = [[(A, "ADD", 3), (A, "CB_TOGGLE", 0)], [(A, "ADD", 3), (A, "CB_TOGGLE", 0), (A, "ADD", 2), (A, "CB_TOGGLE", 1)]]
 PB_Q = [[(B, "ADD", 3)], [(B, "ADD", 17)], [(B, "ADD", 16), (B, "ADD", 3)]]
 
@@ -40,13 +40,13 @@ def gen(tier):
         xd = ["KF_EXCLUDE_NODEFER"] if cb == 2 else []
         for pre in pres + (TOGGLE if cb == 1 else []):
             for fk in MUT_1:
-                if tier == "quick" and cb == 3 and fk not in ("ADD", "DRAIN", "PREPEND", "REMOVE"): continue
+                if cb == 3 and fk not in ("ADD", "DRAIN", "PREPEND", "REMOVE"): continue
                 if tier == "quick" and fk in ("RESERVE_COMMIT2", "ADD_IOVEC", "EXPAND") and pre not in ([], [(A, "ADD", 16)]): continue
                 obs.append(C12.evb_split(13, pre, (A, fk), cb=cb, name_prefix="cb%d_" % cb, extra_defs=xd, **C12.timeouts(fk, tier)))
-        for x in ([[], [(A, "ADD", 3)]] if tier == "quick" else [[], [(A, "ADD", 3)], [(A, "ADD", 16)], [(A, "REF", 3)]]):
+        for x in ([[], [(A, "ADD", 3)]] if tier == "quick" else [[], [(A, "ADD", 3)], [(A, "ADD", 16)]]):
             for y in PB_Q:
                 for fk in MUT_2:
-                    if tier == "quick" and cb == 3: continue
+                    if cb == 3: continue
                     obs.append(C12.evb_split(13, x + y, (A, fk), cb=cb, name_prefix="cb%d_" % cb, extra_defs=xd, **C12.timeouts(fk, tier)))
     # several changes between two runs of the deferred callback: the deferred callback must aggregate them
     for pre in [[(A, "ADD", 3), (A, "ADD", 2)], [(A, "ADD", 16), (A, "DRAIN", 5)], [(A, "ADD", 3), (A, "PREPEND", 2), (A, "DRAIN", 1)]]:
